@@ -5,6 +5,7 @@ import XmppModel.Lemmas.StylingStyle
 import XmppModel.Lemmas.StylingChunk
 import XmppModel.Lemmas.StylingRun
 import XmppModel.Lemmas.StylingSession
+import XmppModel.Lemmas.StylingNest
 import XmppModel.Generated.C17
 /-!
 # C17 — the styling decoder is lossless, chunk-independent and well-bracketed
@@ -541,5 +542,81 @@ theorem C17_after_end (a : Api) (op : Op) (hc : a.created = true) (hop : op ≠ 
     ((a.step op).1 = .nextEnd a.fin a.style a.quote ∨
       ∃ blk, (a.step op).1 = .skip blk false (some a.fin) a.style a.quote) :=
   Api.step_at_end a op hc hop hr
+
+/-! ### Nesting depth (round D)
+
+The decoder's span stack grows with every span that is opened inside another one.  How deep
+can it get?  The whole-run invariant answers: the open spans are pairwise different directive
+bytes and a backtick span is never below another span ("preformatted spans have no
+children" — but a backtick span *is* a child).  So at most four spans are open at once, four
+only with a backtick span innermost, and that depth is reached. -/
+
+/-- **depth of the span stack**: for every document and schedule, after every token the open
+spans are pairwise different directive bytes, a backtick is at most the innermost of them, at
+most four are open, and at most three unless the innermost is a backtick span -/
+theorem C17_span_depth (sch : Schedule) (doc : Bytes) :
+    ∀ x ∈ (scanDoc none sch doc).1,
+      x.2.openSpans.Nodup ∧ (∀ b ∈ x.2.openSpans, isDirective b = true) ∧
+      tick ∉ x.2.openSpans.tail ∧ x.2.openSpans.length ≤ 4 ∧
+      (x.2.openSpans.head? ≠ some tick → x.2.openSpans.length ≤ 3) := by
+  have hb := (C17_bracketing sch doc).1
+  have hgood := RunSteps_forall
+    (P := fun d => d.openSpans.Nodup ∧ ∀ b ∈ d.openSpans, isDirective b = true) _ _ _ hb
+    (fun d R t d' hs => G_stacks_good d'.lv d'.inner _ hs.inv)
+  have htick := RunSteps_inv (P := TickTop) _ _ _ hb (by simp [TickTop, Dec.openSpans, stacks])
+    (fun d R t d' h0 hs => TickTop_step h0 hs)
+  intro x hx
+  obtain ⟨hn, hd⟩ := hgood x hx
+  have ht : tick ∉ x.2.openSpans.tail := htick x hx
+  refine ⟨hn, hd, ht, directives_length_le hn hd, fun hh => directives_length_le_three hn hd ?_⟩
+  intro hm
+  cases hl : x.2.openSpans with
+  | nil => rw [hl] at hm; simp at hm
+  | cons a l =>
+    rw [hl] at hm ht hh
+    simp only [List.mem_cons] at hm
+    rcases hm with rfl | hm
+    · exact hh rfl
+    · exact ht hm
+
+/-- the bound is reached: strong, emphasis, strike and a preformatted span open at once
+(`*_~\`x\`~_*`: depths after each token), with all four span styles in the returned style -/
+theorem C17_span_depth_attained :
+    ((scanDoc none ⟨[], true⟩ (nestDoc [star, under, tilde, tick])).1.map fun x => x.2.openSpans.length) =
+      [1, 2, 3, 4, 4, 3, 2, 1, 0] ∧
+    maxSpanDepth (nestDoc [star, under, tilde, tick]) = some 4 ∧
+    maxSpanDepth (nestDoc [tilde, star, under, tick]) = some 4 ∧
+    maxSpanDepth (gt :: 0x20 :: nestDoc [under, tilde, star, tick]) = some 4 := by decide +kernel
+
+/-- **nesting depth, as behaviour**: on the spans of every sequence of kinds of length 1..4
+opened one inside the other (340 documents, probed on every run) the real decoder reaches the
+end of the input and reports exactly as many span styles at once as the model — in particular
+four for the six orders of strong/emphasis/strike around a preformatted span -/
+theorem C17_gen_nest_depth : Generated.C17.nestProbe = nestDepths := by decide +kernel
+
+/- Full statement (not proved; the oracle checks it on every generated case as
+`bracketing|style-without-span`): for every document and schedule and every returned token,
+the span style bit of kind `b` is on in `Style()` exactly when `b` is among the open spans
+after the token or the token is the end directive of `b`.  Missing: the lift of the per-call
+invariant below through the eight paths of `scan` and the chain of quote decoders
+(`hasRun` gates `Style()` per level). -/
+
+/-- **span style bits come from open spans, one call** (the converse of `StackOK`, which is
+part of the whole-run invariant): if every span style bit that is on in the decoder's mask
+belongs to a span on its stack or is scheduled for clearing (`BitsFromStack`; true for a fresh
+decoder), the same holds after the entry step of `scan` (where the scheduled bits are cleared,
+so afterwards a style bit that is on belongs to an open span) and after `scanSpan` -/
+theorem C17_style_bits_open_spans_partial (lv : Level) (data : Bytes) (atEOF : Bool) (h : BitsFromStack lv) :
+    BitsFromStack ({} : Level) ∧ BitsFromStack (normLevel lv) ∧ (normLevel lv).clearMask = 0 ∧
+    BitsFromStack (scanSpan lv data atEOF).2 := by
+  refine ⟨fun b _ hm => by simp at hm, normLevel_bits h, by simp [normLevel], ?_⟩
+  exact spanEffect_bits h (scanSpan_effect lv data atEOF)
+
+/-- non-vacuity: a decoder inside `*…` satisfies the hypothesis -/
+example : BitsFromStack { mask := SpanStrong, spanStack := [star] } := by
+  intro b hb hm
+  rcases isDirective_cases hb with rfl | rfl | rfl | rfl
+  · left; simp
+  all_goals (revert hm; decide)
 
 end XmppModel.Props.C17
